@@ -121,7 +121,7 @@ ADDENDA = {
  "C16": " R16d: the values passed to each monitor method are the ones persisted (payload of the written log / the parameters also stored in it) and the ledger monitor publishes on the topic, type and ledger of that event.",
  "C17": " R17d: the JSON kinds the query builders can write under their operator (nil slice/map/pointer = null) are all cases of the decoder's type switch. R17e/R17f: structural tables of the column and offset paginators (which comparison and order each direction uses, which row seeds next/previous, page-size+1 probe, trimming) agree between the branch that writes a cursor and the branch that reads it; the arithmetic itself is not decided.",
  "C18": " R18f: each bulk element is decoded into a fresh value. R18g: no argument of an engine call made in the bulk loop carries a value from an earlier iteration.",
- "C19": " R19d: no function of the repository stores into http.Request.Method or chi.Context.RouteMethod (constant safe verbs excepted) or uses a third-party function that does.",
+ "C19": " R19d: no function of the repository stores into http.Request.Method or chi.Context.RouteMethod (constant safe verbs excepted) or uses a third-party function that does. R19e: the switch reaches the router — every command-line flag named like the setting that fills api.Config.ReadOnly is declared on a flag set bound to the configuration registry.",
  "C20": " R20d: no string that may hold client text is converted to a type bun renders verbatim or as an identifier (schema.Safe/Name/Ident/QueryWithArgs).",
 }
 for _k, _v in ADDENDA.items():
